@@ -601,3 +601,10 @@ for ids in (('r_00001', 'r_00002', 'r_00003'), ('r_+001',), ('r_0001', 'r_00002'
                                 descriptor=Const('delta_H'), cleavage_reactions=gas_rxs(*ids)), units=UNITS()),
              ensures=[('lists-the-ids-verbatim-if-it-accepts-them', 'spec.ids.denotes_exactly(result["cleavage-reactions"], %r)' % (list(ids),))],
              may_raise=('ValueError',), options=PLAIN, cross_check=False)
+
+# ---- shared helpers the writers go through: unit factors (also of a zero value), condition routing -------------------------
+from contracts import helpers
+helpers.install(P, 'kwargs', ('convert_unit', [('kcal/mol', ['J/mol', 'kJ/mol', 'cal/mol', 'kcal/mol', 'eV/molecule']),
+                                               ('mol', ['mol', 'molec', 'molecule']), ('cm2', ['m2', 'cm2']),
+                                               ('g', ['kg', 'g']), ('cm3', ['m3', 'cm3']),
+                                               ('kcal', ['J', 'kJ', 'cal', 'kcal', 'eV'])]))
